@@ -241,6 +241,8 @@ def _ebnf(rng, profile='shaping', n_rules=None, p_rec=0.15, allow_templates=True
     templates = []
     if allow_templates and rng.random() < 0.25:
         templates.append('tm0')
+        if rng.random() < 0.4:
+            templates.append('tm1')        # two parameters, may use tm0 inside
     aliases = itertools.count()
 
     def atom(idx, depth):
@@ -257,8 +259,10 @@ def _ebnf(rng, profile='shaping', n_rules=None, p_rec=0.15, allow_templates=True
                 return ['r', rng.choice(names)]
             return ['t', rng.choice(tnames)]
         if r < 0.80 and templates:
-            arg = ['t', rng.choice(tnames)] if rng.random() < 0.6 or not names[idx + 1:] else ['r', rng.choice(names[idx + 1:])]
-            return ['c', templates[0], [arg]]
+            def targ():
+                return ['t', rng.choice(tnames)] if rng.random() < 0.6 or not names[idx + 1:] else ['r', rng.choice(names[idx + 1:])]
+            t = rng.choice(templates)
+            return ['c', t, [targ()] if t == 'tm0' else [targ(), targ()]]
         if r < 0.87:
             return ['g', [alt(seq(idx, depth + 1, 1, 2)) for _ in range(rng.randint(1, 2))]]
         if r < 0.94:
@@ -298,6 +302,14 @@ def _ebnf(rng, profile='shaping', n_rules=None, p_rec=0.15, allow_templates=True
         pr = rng.choice([None, None, -1, 1, 2]) if allow_prio else None
         rules.append(rule(nm, alts, mods=mods, prio=pr))
     for t in templates:
+        if t == 'tm1':
+            body = rng.choice([
+                [alt([['p', 'x'], LIT(','), ['p', 'y']])],
+                [alt([['p', 'x'], ['q', ['p', 'y'], '*', 0, 0]])],
+                [alt([['c', 'tm0', [['p', 'y']]], ['p', 'x']]), alt([LIT('z'), ['p', 'x']], 'tz1')],
+            ])
+            rules.append(rule(t, body, mods=rng.choice(['', '', '?']), params=['x', 'y']))
+            continue
         body = rng.choice([
             [alt([LIT('('), ['p', 'x'], LIT(')')])],
             [alt([['p', 'x'], ['q', ['g', [alt([LIT(','), ['p', 'x']])]], '*', 0, 0]])],
